@@ -134,6 +134,14 @@ def scope(res, pid, rng, tier):
         for v in (0, 1, 31, 32, 63, 64, 127, 128, 200, 255):
             cases.append((chr(v) * rng.randint(1, 3), s))
         cases.append(("", s))
+    # every alphabet character as the character in front of a group (it is the last one of the previous group, so it is steered
+    # through the salt and a random prefix) x the code points with the largest gaps of each weight row, at each table position
+    for pos in range(7):
+        for s in ALPHA:
+            for _ in range(8 if tier == "thorough" else 4):
+                pad = "".join(chr(rng.randint(0, 255)) for _ in range(pos))
+                for v in (63, 127, 191, 255, 31, 3, 15, 7):
+                    cases.append((pad + chr(v), s))
     # random longer plaintexts, arbitrary salt strings (multi-character, outside the alphabet, empty, None)
     odd_salts = [None, "", "!", "_x", " ", "éa", "\n", "$9$", "nQ", "TESTSALT", "\U0001F600"]
     for _ in range(1500 if tier == "thorough" else 300):
